@@ -834,6 +834,8 @@ func (x *c19Gen) pairMuts(s *c19Site) []c19Mut {
 type c19FieldCase struct {
 	Desc   string            `json:"desc"`
 	Format string            `json:"format,omitempty"` // "" = JSON file, "yaml" = the same document as a .yaml file
+	Starts  int  `json:"starts,omitempty"`   // number of load->dump rounds (default 2)
+	OneDump bool `json:"one_dump,omitempty"` // each start persists exactly once (no InheritMosnconfig), so the state after every single dump is seen
 	Fields []string          `json:"fields"`
 	Config interface{}       `json:"config"`
 	Files  map[string]string `json:"files,omitempty"`
@@ -1559,7 +1561,15 @@ func c19RunFieldCase(p *vreport.Part, c c19FieldCase, dir string, blame func(c c
 		o.Keys = append(o.Keys, key)
 		p.Violation(key, "case "+c.Desc+": "+detail, c)
 	}
-	s1 := c19StartMosn(filepath.Join(dir, "conf"), cfgPath, dir, "1")
+	var extraEnv []string
+	if c.OneDump {
+		extraEnv = []string{c19EnvOneDump + "=1"}
+	}
+	starts := c.Starts
+	if starts < 2 {
+		starts = 2
+	}
+	s1 := c19StartMosn(filepath.Join(dir, "conf"), cfgPath, dir, "1", extraEnv...)
 	if s1.TimedOut {
 		o.TimedOut = true
 		return o
@@ -1573,16 +1583,19 @@ func c19RunFieldCase(p *vreport.Part, c c19FieldCase, dir string, blame func(c c
 		viol("generated: persisted file is not parseable in its own format", err.Error())
 		return o
 	}
-	i1, err := c19Parse([]byte(s1.Res.Inherit), false)
-	if err != nil {
-		viol("generated: InheritMosnconfig bytes are not valid JSON", err.Error())
-		return o
-	}
-	c19Canon(i1)
+	var i1 interface{}
 	var d []c19Diff
-	c19DiffValues("config", i1, d1["config"], &d)
-	if len(d) > 0 {
-		viol(c19DiffKey("persisted file differs from the hot-upgrade bytes", d[0]), c19DiffText(d))
+	if !c.OneDump {
+		i1, err = c19Parse([]byte(s1.Res.Inherit), false)
+		if err != nil {
+			viol("generated: InheritMosnconfig bytes are not valid JSON", err.Error())
+			return o
+		}
+		c19Canon(i1)
+		c19DiffValues("config", i1, d1["config"], &d)
+		if len(d) > 0 {
+			viol(c19DiffKey("persisted file differs from the hot-upgrade bytes", d[0]), c19DiffText(d))
+		}
 	}
 	if dbg := os.Getenv("VERIF_C19_DEBUG_DIR"); dbg != "" && strings.HasPrefix(dbg, "/tmp/C19-") { // development aid only
 		os.MkdirAll(dbg, 0755)
@@ -1590,61 +1603,81 @@ func c19RunFieldCase(p *vreport.Part, c c19FieldCase, dir string, blame func(c c
 		os.WriteFile(filepath.Join(dbg, filepath.Base(dir)+".json"), b, 0644)
 	}
 	// (1) nothing the input set is dropped, changed or re-typed by the dump
-	for _, e := range c.Expect {
-		if e.Skip != "" {
-			p.Count("expectations_not_compared", 1)
-			continue
-		}
-		p.Count("expectations_compared", 1)
-		if what, detail := c19CheckExpect(d1, e, dir); what != "" {
-			viol(fmt.Sprintf("field %s %s by dump", c19BaseField(e.Field), what), strings.ReplaceAll(detail, dir, c19TMP))
+	checkExpect := func(doc map[string]interface{}) {
+		for _, e := range c.Expect {
+			if e.Skip != "" {
+				p.Count("expectations_not_compared", 1)
+				continue
+			}
+			p.Count("expectations_compared", 1)
+			if what, detail := c19CheckExpect(doc, e, dir); what != "" {
+				viol(fmt.Sprintf("field %s %s by dump", c19BaseField(e.Field), what), strings.ReplaceAll(detail, dir, c19TMP))
+			}
 		}
 	}
-	// (2) the dump loads again, (3) and dumps to the same thing
-	s2 := c19StartMosn(filepath.Join(dir, "conf"), cfgPath, dir, "2")
-	if s2.TimedOut {
-		o.TimedOut = true
-		return o
-	}
-	if !s2.Finished {
-		o.ReloadFail = true
-		key := ""
-		if blame != nil {
-			key = blame(c, "reload")
+	checkExpect(d1)
+	// (2) the dump loads again, (3) and dumps to the same thing — for every
+	// further round (2 by default; more for the directory modes, where each
+	// dump rewrites and sweeps the same directory)
+	ord := func(k int) string {
+		switch k {
+		case 2:
+			return "second"
+		case 3:
+			return "third"
 		}
-		if key == "" {
-			fs := append([]string{}, c.Fields...)
-			sort.Strings(fs)
-			key = fmt.Sprintf("dump does not load again (stage %s) after setting %s", s2.Res.Stage, strings.Join(fs, " + "))
-		}
-		viol(key, fmt.Sprintf("the first start completed; the restart from the persisted file did not: stage=%s exit=%d %s %s",
-			s2.Res.Stage, s2.Exit, s2.Res.Err, strings.ReplaceAll(c19StripTime(c19FatalLine(s2.Tail)), dir, c19TMP)))
-		return o
+		return fmt.Sprintf("%dth", k)
 	}
-	d2, err := c19DumpDoc(s2.File, isYAML)
-	if err != nil {
-		viol("generated: second persisted file is not parseable in its own format", err.Error())
-		return o
-	}
-	d = nil
-	c19DiffValues("", d1, d2, &d)
 	seen := map[string]bool{}
-	for _, x := range d {
-		k := c19DiffKey("second dump differs from first", x)
-		if !seen[k] {
-			seen[k] = true
-			viol(k, strings.ReplaceAll(c19DiffText(d), dir, c19TMP))
+	for k := 2; k <= starts; k++ {
+		sk := c19StartMosn(filepath.Join(dir, "conf"), cfgPath, dir, strconv.Itoa(k), extraEnv...)
+		if sk.TimedOut {
+			o.TimedOut = true
+			return o
 		}
-	}
-	i2, err := c19Parse([]byte(s2.Res.Inherit), false)
-	if err == nil && len(d) == 0 {
-		c19Canon(i2)
-		c19DiffValues("config", i1, i2, &d)
+		if !sk.Finished {
+			o.ReloadFail = true
+			key := ""
+			if blame != nil {
+				key = blame(c, "reload")
+			}
+			if key == "" {
+				fs := append([]string{}, c.Fields...)
+				sort.Strings(fs)
+				key = fmt.Sprintf("dump does not load again (stage %s) after setting %s", sk.Res.Stage, strings.Join(fs, " + "))
+			}
+			viol(key, fmt.Sprintf("start %d completed; the restart from the persisted file did not: stage=%s exit=%d %s %s",
+				k-1, sk.Res.Stage, sk.Exit, sk.Res.Err, strings.ReplaceAll(c19StripTime(c19FatalLine(sk.Tail)), dir, c19TMP)))
+			return o
+		}
+		dk, err := c19DumpDoc(sk.File, isYAML)
+		if err != nil {
+			viol("generated: "+ord(k)+" persisted file is not parseable in its own format", err.Error())
+			return o
+		}
+		if starts > 2 { // what the input set must still be there after every dump
+			checkExpect(dk)
+		}
+		d = nil
+		c19DiffValues("", d1, dk, &d)
 		for _, x := range d {
-			k := c19DiffKey("second hot-upgrade bytes differ from first", x)
-			if !seen[k] {
-				seen[k] = true
-				viol(k, strings.ReplaceAll(c19DiffText(d), dir, c19TMP))
+			kk := c19DiffKey(ord(k)+" dump differs from first", x)
+			if !seen[kk] {
+				seen[kk] = true
+				viol(kk, strings.ReplaceAll(c19DiffText(d), dir, c19TMP))
+			}
+		}
+		if !c.OneDump && len(d) == 0 {
+			if ik, err := c19Parse([]byte(sk.Res.Inherit), false); err == nil {
+				c19Canon(ik)
+				c19DiffValues("config", i1, ik, &d)
+				for _, x := range d {
+					kk := c19DiffKey(ord(k)+" hot-upgrade bytes differ from first", x)
+					if !seen[kk] {
+						seen[kk] = true
+						viol(kk, strings.ReplaceAll(c19DiffText(d), dir, c19TMP))
+					}
+				}
 			}
 		}
 	}
